@@ -70,7 +70,11 @@ func (t *InstTrace) Func(ctx sim.HookCtx) {
 	}
 	now := t.engine.CurrentTime()
 	k := t.keyOf(wf.Wavefront)
-	t.Waves[k] = append(t.Waves[k], &InstEvent{Text: t.printer.Print(inst), Start: now, End: now, Inst: inst})
+	cuName := ""
+	if n, ok := ctx.Domain.(sim.Named); ok {
+		cuName = n.Name()
+	}
+	t.Waves[k] = append(t.Waves[k], &InstEvent{Text: t.printer.Print(inst), Start: now, End: now, Inst: inst, CU: cuName})
 }
 
 type timingTracer struct{ t *InstTrace }
